@@ -32,12 +32,15 @@ ASSUMPTIONS = [
 
 def cases(rng, tier):
     return [c for c in S.gen_cases(rng, tier, 200 if tier == "quick" else 3000) if c["mode"] == "deser"] \
+        + S.size_bound_cases(random.Random("size" + str(rng.getstate()[1][0]))) \
         + X.directed_corrupt_cases() + X.gen_corrupt_cases(rng, 300 if tier == "quick" else 6000) \
+        + X.directed_image_cases() + X.image_cases(random.Random("img" + str(rng.getstate()[1][0])), 150 if tier == "quick" else 3000) \
         + X.decimal_cases() + IH.directed_cases() + IH.gen_cases(random.Random(str(rng.getstate()[1][0])), 300 if tier == "quick" else 6000)
 
 
 def search_cases(rng, tier):
-    return [c for c in S.gen_cases(rng, "thorough", 600) if c["mode"] == "deser"] + X.gen_corrupt_cases(rng, 1500)
+    return [c for c in S.gen_cases(rng, "thorough", 600) if c["mode"] == "deser"] + X.gen_corrupt_cases(rng, 1500) \
+        + X.directed_image_cases() + X.image_cases(random.Random("img" + str(rng.getstate()[1][0])), 600)
 
 
 def _x(case):
@@ -57,11 +60,13 @@ def run_impl(case):
         return X.run_decimal(case)
     if _ih(case):
         return IH.run_impl(case)
-    return X.run_corrupt(case) if _x(case) else S.run_impl(case)
+    return X.run_exact(case) if _x(case) else S.run_impl(case)
 
 
 def line(case, impl):
-    return None if _x(case) or _ih(case) or _dec(case) else S.line(case, impl)
+    if _x(case):
+        return X.xline(case, impl)
+    return None if _ih(case) or _dec(case) else S.line(case, impl)
 
 
 def tags(case, impl, model):
@@ -70,7 +75,8 @@ def tags(case, impl, model):
     if _ih(case):
         return ["stream:inheritdeser", "inherit:" + case["shape"]] + sorted({f"inherit-ctor:{'ok' if s['ctor'] == 'ok' else 'rejects'}" for s in impl.get("steps", [])})
     if _x(case):
-        return ["stream:extras-corrupt", "extras:" + impl.get("out", "skipped")] + (["extras-exc:" + impl["exc"]] if "exc" in impl else [])
+        return ["stream:extras-" + ("image" if case.get("corrupt") is None else "corrupt"), "extras:" + impl.get("out", "skipped"),
+                "extras-ctor:" + impl.get("ctor", "skipped"), "extras-model:" + ("line" if impl.get("xline") else "oracle-only")] + (["extras-exc:" + impl["exc"]] if "exc" in impl else [])
     return S.tags(case, impl, model)
 
 
@@ -83,7 +89,7 @@ def describe(case, impl, model):
         return {"decimal": case, "probes": impl.get("probes")}
     if _ih(case):
         return {"inheritdeser": case, "mro": impl.get("mro"), "steps": impl.get("steps")}
-    return {"extras": case["fields"], "doc": impl.get("doc"), "out": impl.get("out"), "exc": impl.get("exc")} if _x(case) else S.describe(case, impl, model)
+    return {"extras": case["fields"], "doc": impl.get("doc"), "out": impl.get("out"), "exc": impl.get("exc"), "ctor": impl.get("ctor")} if _x(case) else S.describe(case, impl, model)
 
 
 def judge(case, impl, model):
@@ -92,7 +98,7 @@ def judge(case, impl, model):
     if _ih(case):
         return None, IH.judge(case, impl)
     if _x(case):
-        return None, X.judge_corrupt(case, impl)
+        return X.xcorrespond(case, impl, model), X.judge_exact(case, impl)
     msg = S.correspondence(case, impl, model)
     fails = []
     if "unbuildable" in impl or "abstraction_mismatch" in impl or "deser" not in impl:
